@@ -355,6 +355,30 @@ func runC20(r *rt.Runner) {
 			c.Nontrivial([]byte(fmt.Sprintf("path|%d|%v|%v|%v|%v", nseg, fixed, sx, sy, x)), func() string { return fmt.Sprintf("%d segments, fixed=%v", nseg, fixed) })
 		})
 	}
+	// (e2) paths far away from the origin, with small integer and fractional steps
+	// (a tolerance that grows with the magnitude of the coordinates would swallow them)
+	nFar := r.N(400, 4000)
+	for k := 0; k < nFar; k++ {
+		r.Case("far-path", func(c *rt.C) {
+			rng := c.Rand()
+			nseg := 1 + rng.IntN(120)
+			integer := rng.IntN(2) == 0
+			longPathFar = true
+			g, x := buildLongPath(rng, nseg, func() (float64, float64) {
+				if integer {
+					return float64(rng.IntN(5) - 2), float64(rng.IntN(1401) - 700)
+				}
+				return smallStep(rng), float64(rng.IntN(3)-1) * 0.05
+			})
+			longPathFar = false
+			f := emptyFont()
+			f.Glyphs["far"] = g
+			c.SetDetail(func() string { return fmt.Sprintf("path of %d segments starting near %v", nseg, g.Cmds[0].Args) })
+			checkWrittenFont(c, f, stdEnc, type1.FormatNoEExec, "NoEExec")
+			c.Count("paths far from the origin")
+			c.Nontrivial([]byte(fmt.Sprintf("far|%d|%v|%v", nseg, g.Cmds[0].Args, x)), func() string { return fmt.Sprintf("%d segments near %v", nseg, g.Cmds[0].Args) })
+		})
+	}
 	// (f) long paths whose steps all err to the same side by less than any
 	// per-number tolerance: an integer plus (or minus) a few 1e-7. Whatever the
 	// writer does with such a delta, a bias below 1e-6 per number only shows
@@ -372,7 +396,16 @@ func runC20(r *rt.Runner) {
 			if rng.IntN(3) == 0 {
 				offY = 0
 			}
+			creep := rng.IntN(4) == 0
 			g, x := buildLongPath(rng, nseg, func() (float64, float64) {
+				if creep {
+					// one coordinate moves on, the other one creeps by less than any
+					// tolerance per segment (always to the same side)
+					if off > 0 {
+						return float64(1 + rng.IntN(9)), offY * 0.9
+					}
+					return off * 0.9, float64(1 + rng.IntN(9))
+				}
 				return float64(rng.IntN(7)-3) + off, float64(rng.IntN(7)-3) + offY
 			})
 			f := emptyFont()
@@ -390,17 +423,26 @@ func runC20(r *rt.Runner) {
 	}
 }
 
+// farStart moves the start of a path far away from the origin (all coordinates
+// stay inside the 32-bit range; the steps stay small).
+func farStart(rng *rand.Rand) float64 {
+	return []float64{1e8, -1e8, 1e9, -1e9, 2e9, -2e9, 2147000000, -2147000000, 3e7, 123456789}[rng.IntN(10)] + float64(rng.IntN(1000))
+}
+
 // buildLongPath draws nseg segments of all kinds (moves, lines, h/v lines, the
 // three curve forms) whose deltas come from step; it returns the glyph and the
 // final x coordinate.
 func buildLongPath(rng *rand.Rand, nseg int, step func() (float64, float64)) (*type1.Glyph, float64) {
 	g := &type1.Glyph{WidthX: 600}
 	x, y := genFraction(rng), genFraction(rng)
+	if longPathFar {
+		x, y = farStart(rng), farStart(rng)
+	}
 	g.MoveTo(x, y)
 	cx, cy := x, y // where the current contour began
 	for s := 0; s < nseg; s++ {
 		sx, sy := step()
-		switch rng.IntN(8) {
+		switch rng.IntN(9) {
 		case 0:
 			if rng.IntN(2) == 0 {
 				// the contour is closed explicitly, by a segment back to its first
@@ -427,6 +469,16 @@ func buildLongPath(rng *rand.Rand, nseg int, step func() (float64, float64)) (*t
 			y1, x2, y2, x3 := y+sy, x+sx, y+2*sy, x+2*sx
 			g.CurveTo(x, y1, x2, y2, x3, y2)
 			x, y = x3, y2
+		case 7:
+			if rng.IntN(2) == 0 {
+				// leaves horizontally and arrives horizontally (an S-shaped join): a general curve
+				g.CurveTo(x+sx, y, x+2*sx, y+sy, x+3*sx, y+sy)
+				x, y = x+3*sx, y+sy
+			} else {
+				// leaves vertically and arrives vertically
+				g.CurveTo(x, y+sy, x+sx, y+2*sy, x+sx, y+3*sy)
+				x, y = x+sx, y+3*sy
+			}
 		default:
 			g.CurveTo(x+sx, y+sy/2, x+2*sx, y+sy, x+3*sx, y+3*sy)
 			x, y = x+3*sx, y+3*sy
@@ -435,6 +487,9 @@ func buildLongPath(rng *rand.Rand, nseg int, step func() (float64, float64)) (*t
 	g.ClosePath()
 	return g, x
 }
+
+// longPathFar makes buildLongPath start far away from the origin (set around a call).
+var longPathFar bool
 
 func smallStep(rng *rand.Rand) float64 {
 	switch rng.IntN(6) {
